@@ -2,6 +2,4 @@ package main
 
 import "sort"
 
-
-
 func sortStrings(s []string) { sort.Strings(s) }
